@@ -23,7 +23,11 @@ def build(rng, tier):
         for j in range(8 if tier == "quick" else 40):
             inp = gen.gen_lat_input(rng.fork(f"{pid}i{j}"), p)
             inst = f"{pid}_{j}"
-            cases.append(engcheck.Case(pid, inst, engcheck.std_history(inst, pid, inp), {"inp": inp, "kind": "lattice"}))
+            # odd inputs: the Lean side is the physical-index engine model with lattices (`eng runpl`, Model/EnginePhysLat.lean: key index, set-valued row-number
+            # indices, in-place join, re-queue into every new index); the real code is the same run()
+            hist = engcheck.std_history(inst, pid, inp)
+            if j % 2 == 1: hist = [o.replace("eng run ", "eng runpl ") for o in hist]
+            cases.append(engcheck.Case(pid, inst, hist, {"inp": inp, "kind": "lattice"}))
     # the README shortest-path shape on graphs with cheap long chains and expensive shortcuts: the lattice is read through a non-key index
     # inside its own stratum, keys are improved several iterations after their rows were queued, a later stratum reads the final values
     sp = gen.sp_program()
@@ -32,7 +36,9 @@ def build(rng, tier):
     for j in range(12 if tier == "quick" else 80):
         inp = gen.sp_input(rng.fork(f"lsp{j}"))
         inst = f"lsp_{j}"
-        cases.append(engcheck.Case("lsp", inst, engcheck.std_history(inst, "lsp", inp), {"inp": inp, "kind": "shortest-paths"}))
+        hist = engcheck.std_history(inst, "lsp", inp)
+        if j % 2 == 1: hist = [o.replace("eng run ", "eng runpl ") for o in hist]
+        cases.append(engcheck.Case("lsp", inst, hist, {"inp": inp, "kind": "shortest-paths"}))
     return progs, mods, cases
 
 
